@@ -16,7 +16,7 @@ import (
 // C15: a long-lived engine renders what a fresh engine would after any file edits.
 
 type c15Case struct {
-	World  string   `json:"world,omitempty"` // "" = page/component/layout contents; "B" = which layout file exists
+	World  string   `json:"world,omitempty"` // "" = page/component/layout contents; "B" = which layout file exists; "BO" = B with the files overlaid on a layer of defaults
 	Prefix []string `json:"prefix"`
 	Depth  int      `json:"depth"`
 }
@@ -215,7 +215,17 @@ func (c *c15Case) runB(ctx *core.Ctx) {
 		}
 		sync()
 		nextVer := 1
-		tpl := vuego.NewFS(m)
+		var fsys fs.FS = m
+		if c.World == "BO" {
+			// the site's files overlay a layer of built-in defaults (the markdown package's set-up):
+			// every path also exists below, unchanging and old; a deleted file falls back to its default
+			lower := fstest.MapFS{}
+			for _, f := range c15BFiles {
+				lower[c15BPath[f]] = &fstest.MapFile{Data: []byte(c15BContent(f, 1000)), ModTime: baseTime.Add(-24 * time.Hour), Mode: 0o644}
+			}
+			fsys = vuego.NewOverlayFS(m, lower)
+		}
+		tpl := vuego.NewFS(fsys)
 		ok := true
 		rendered := ""
 		var held vuego.Template
@@ -264,10 +274,10 @@ func (c *c15Case) runB(ctx *core.Ctx) {
 				ctx.Eval(2)
 				ctx.Transition(1)
 				got := render(tpl, parts[1], parts[2])
-				want := render(vuego.NewFS(m), parts[1], parts[2])
+				want := render(vuego.NewFS(fsys), parts[1], parts[2])
 				rendered += parts[1] + parts[2] + ","
 				if got != want {
-					ctx.Violation("stale-render", "world-B/entry-"+parts[1]+"/"+parts[2], c15Class(hist[:step+1]), fmt.Sprintf("history %v: long-lived engine rendered %q, fresh engine %q", hist[:step+1], clip(got, 300), clip(want, 300)))
+					ctx.Violation("stale-render", "world-"+c.World+"/entry-"+parts[1]+"/"+parts[2], c15Class(hist[:step+1]), fmt.Sprintf("history %v: long-lived engine rendered %q, fresh engine %q", hist[:step+1], clip(got, 300), clip(want, 300)))
 					ok = false
 				}
 			}
@@ -364,7 +374,7 @@ func (c *c15Case) runB(ctx *core.Ctx) {
 
 func (c *c15Case) Run(ctx *core.Ctx) {
 	ctx.NonTrivial()
-	if c.World == "B" {
+	if c.World == "B" || c.World == "BO" {
 		c.runB(ctx)
 		return
 	}
@@ -518,7 +528,7 @@ func init() {
 		ID:    "C15",
 		Level: "model_checking",
 		Rule: "explicit-state search over all histories up to the bound of {edit page/component/layout with an mtime that advances, stays equal or goes back; delete; make invalid (broken front-matter); render through Load().Render, RenderFile, Vue.Render (with and without data), Vue.RenderFragment} on an in-memory file system with chosen mtimes; each history is replayed on fresh long-lived engines. " +
-			"A second world does the same for layout resolution: a post naming layout `wide` with a relative twin (blog/wide.vuego), a layouts/wide.vuego fallback and layouts/base.vuego, a page without layout; events create/edit/delete each of them, render both pages through Load().Render and RenderFile, and keep a loaded Template object across later events and render it then. " +
+			"A second world does the same for layout resolution: a post naming layout `wide` with a relative twin (blog/wide.vuego), a layouts/wide.vuego fallback and layouts/base.vuego, a page without layout; events create/edit/delete each of them, render both pages through Load().Render and RenderFile, and keep a loaded Template object across later events and render it then; the same world once more with the files overlaid (OverlayFS) on an unchanging layer of defaults for every path. " +
 			"oracle: after every render event, bytes/error equal those of newly created engines on the current files (differential, no hand-written expectation). states = distinct (file states, possibly-cached versions); a wrapping fs.FS counts reads to show that cache hits happen. non-trivial = all",
 		Bounds:      map[string]string{"quick": "histories of <=5 events over 19 event kinds; layout world: <=6 events over 12 kinds", "thorough": "histories of <=6 events; layout world <=7"},
 		Assumptions: []string{"a render is unconstrained while an involved file has content that differs from what an engine may hold under the same mtime (documented cache limit)", "the cache only sees fs.FS, so an in-memory FS with chosen mtimes covers every answer it can get"},
@@ -536,6 +546,7 @@ func init() {
 			for _, e1 := range c15BEvents {
 				for _, e2 := range c15BEvents {
 					emit(&c15Case{World: "B", Prefix: []string{e1, e2}, Depth: depth + 1})
+					emit(&c15Case{World: "BO", Prefix: []string{e1, e2}, Depth: depth})
 				}
 			}
 		},
